@@ -27,6 +27,9 @@ SPEC DECISIONS
  D20.6 if an attribute name occurs more than once in a link (RFC 6690 §3 forbids that for rt,
        if, rel, title, sz, …) the first one the table holds is the one the filter looks at.
  D20.7 a resource registered for the path `.well-known/core` itself is not listed.
+ D20.8 RFC 6690 §4.1 defines one search criterion.  For a GET carrying several Uri-Query options the
+       criterion is the first option (its bytes as they are in the option, i.e. percent-decoded);
+       further options do not restrict the listing (a server may ignore filters altogether).
 -/
 namespace Coap.LF
 
@@ -138,6 +141,9 @@ def selected (t : Table) (q : Bytes) : List Resource :=
 
 /-- the full resource-discovery payload for table `t` and query `q` -/
 def listing (t : Table) (q : Bytes) : Bytes := joinComma ((selected t q).map link)
+
+/-- D20.8: the payload of `GET /.well-known/core` with the Uri-Query option values `opts` -/
+def getListing (t : Table) (opts : List Bytes) : Bytes := listing t (opts.head?.getD [])
 
 /-- what a reader of `count` bytes at `offset` must see -/
 def window (l : Bytes) (offset count : Nat) : Bytes := (l.drop offset).take count
